@@ -356,7 +356,7 @@ func runC12(ctx Ctx) int {
 			items = append(items, item{it.p, append(append([]string{}, it.labels...), "history="+h), h})
 		}
 	}
-	deadline := devx.Deadline(map[string]time.Duration{"quick": 4 * time.Minute, "thorough": 20 * time.Minute}[run.Tier])
+	deadline := devx.Deadline(map[string]time.Duration{"quick": 4 * time.Minute, "thorough": 15 * time.Minute}[run.Tier])
 	_, complete := parallel(len(items), deadline, func(i int) {
 		it := items[i]
 		v := c12JudgeHist(it.p, it.hist)
